@@ -222,7 +222,8 @@ func execPool(prop string) func(poolCase, core.Source) core.Result {
 			res.Violation = core.Violate(prop+"/build-panicked", "building the pool panicked: %s", lib.Short(payload))
 			return
 		}
-		reused := age.Collator[any]().Make()
+		reused := age.Collator[any]().Make()        // ranks every pair of the pool, one call after the other
+		reusedCompare := age.Collator[any]().Make() // compares every pair (kept apart: a call of one kind must not repair what the other left behind)
 		ranks := make([][]age.Rank, n)
 		distinctRanks := false
 		for i := 0; i < n; i++ {
@@ -230,7 +231,7 @@ func execPool(prop string) func(poolCase, core.Source) core.Result {
 			for j := 0; j < n; j++ {
 				var r age.Rank
 				var cmp bool
-				if p, payload := lib.Call(func() { r, cmp = reused.RankValues(objs[i], objs[j]), reused.CompareValues(objs[i], objs[j]) }); p {
+				if p, payload := lib.Call(func() { r, cmp = reused.RankValues(objs[i], objs[j]), reusedCompare.CompareValues(objs[i], objs[j]) }); p {
 					res.Violation = core.Violate(prop+"/panicked", "ranking/comparing %v and %v panicked: %s", abs[i], abs[j], lib.Short(payload))
 					return
 				}
@@ -440,16 +441,22 @@ func flatMap(m map[string]int) []int {
 func typedAxioms[T any](prop string, typ string, vals []T, ref func(i, j int) int) (v *core.Violation, distinct bool) {
 	n := len(vals)
 	reused := age.Collator[T]().Make()
+	reusedCompare := age.Collator[T]().Make()
 	ranks := make([][]age.Rank, n)
 	for i := 0; i < n; i++ {
 		ranks[i] = make([]age.Rank, n)
 		for j := 0; j < n; j++ {
 			var r age.Rank
 			var cmp bool
-			if p, payload := lib.Call(func() { r, cmp = reused.RankValues(vals[i], vals[j]), reused.CompareValues(vals[i], vals[j]) }); p {
+			if p, payload := lib.Call(func() { r, cmp = reused.RankValues(vals[i], vals[j]), reusedCompare.CompareValues(vals[i], vals[j]) }); p {
 				return core.Violate(prop+"/typed/panicked/"+typ, "%s: ranking/comparing %v and %v panicked: %s", typ, vals[i], vals[j], lib.Short(payload)), false
 			}
 			ranks[i][j] = r
+			for round := 0; round < 2; round++ {
+				if again := reused.RankValues(vals[i], vals[j]); again != r {
+					return core.Violate(prop+"/typed/depends-on-history/"+typ, "Collator[%s]: RankValues(%v, %v) = %v, then %v on the same collator", typ, vals[i], vals[j], r, again), false
+				}
+			}
 			want := age.EqualRank
 			if c := ref(i, j); c < 0 {
 				want = age.LesserRank
